@@ -1,5 +1,5 @@
 """C08 — Diagonal update obeys exact detailed balance in every slot (Metropolis and heat-bath)."""
-from checks import pure_fns
+from checks import pure_fns, law_audits
 from checks import extra_audits
 LEAN_TARGETS = ["QmcProps.C08", "drv_c08"]
 BINS = ["c08"]
@@ -53,4 +53,5 @@ def main(ck):
         ck.correspond("sweep-trajectory", "drv_c08", cases)
         cases = ck.harness("c08", ["prob"])
         ck.correspond("slot-probabilities", "drv_c08", cases)
+    law_audits.run(ck, groups=['refine', 'ideal', 'sweep'])   # idealised law of the executable model = the Markov kernel of the invariance theorems
     return ck.finish(RULE)
